@@ -886,31 +886,58 @@ func runC11(res *Result, rng *RNG, tier string, outDir string) {
 			}
 		}
 	}
-	// invalid rule with several matches, expression error with several matches: census at datalog level
-	for k := 0; k < 20; k++ {
-		syms := &datalog.SymbolTable{}
-		w := datalog.NewWorld(datalog.WithMaxDuration(10 * time.Second))
-		for j := 0; j < 2+k%5; j++ {
-			w.AddFact(datalog.Fact{Predicate: SPred{Name: "n", Terms: []STerm{aInt(int64(j))}}.toDatalog(syms)})
-		}
-		var rule SRule
-		if k%2 == 0 {
-			rule = SRule{Head: SPred{Name: "h", Terms: []STerm{aVar("zz")}}, Body: []SPred{{Name: "n", Terms: []STerm{aVar("x")}}}}
-		} else {
-			rule = SRule{Head: SPred{Name: "h", Terms: []STerm{aVar("x")}}, Body: []SPred{{Name: "n", Terms: []STerm{aVar("x")}}},
-				Exprs: []SExpr{{{Kind: 0, Val: aInt(1)}, {Kind: 0, Val: aVar("x")}, {Kind: 2, Bin: 12}, {Kind: 0, Val: aInt(0)}, {Kind: 2, Bin: 3}}}}
-		}
-		w.AddRule(rule.toDatalog(syms))
-		err := w.Run(syms)
-		w.QueryRule(rule.toDatalog(syms), syms)
-		res.Count(fmt.Sprintf("census %d", k), true)
-		res.Dist("census:" + runErrClass(err))
-		time.Sleep(20 * time.Millisecond)
-		if g := datalogGoroutines() - base; g != 0 {
-			time.Sleep(150 * time.Millisecond)
-			if g = datalogGoroutines() - base; g != 0 {
-				res.Violate("stranded-goroutine:"+runErrClass(err), fmt.Sprintf("%d goroutine(s) left after World.Run returned %v", g, err), map[string]interface{}{"rule": rule.String(), "facts": 2 + k%5})
-				base = datalogGoroutines()
+	// census at datalog level over a matrix of early-return shapes: head {bound, unbound} x
+	// expression {none, true for all, error on the k-th fact, false on some} x 1-4 facts x fact order
+	{
+		k := 0
+		for _, unbound := range []bool{false, true} {
+			for exprKind := 0; exprKind < 5; exprKind++ {
+				for nf := 1; nf <= 4; nf++ {
+					for _, rev := range []bool{false, true} {
+						k++
+						syms := &datalog.SymbolTable{}
+						w := datalog.NewWorld(datalog.WithMaxDuration(10 * time.Second))
+						vals := []int64{1, 2, 0, 3}[:nf]
+						if rev {
+							for i, j := 0, len(vals)-1; i < j; i, j = i+1, j-1 {
+								vals[i], vals[j] = vals[j], vals[i]
+							}
+						}
+						for _, v := range vals {
+							w.AddFact(datalog.Fact{Predicate: SPred{Name: "n", Terms: []STerm{aInt(v)}}.toDatalog(syms)})
+						}
+						hv := "x"
+						if unbound {
+							hv = "zz"
+						}
+						rule := SRule{Head: SPred{Name: "h", Terms: []STerm{aVar(hv)}}, Body: []SPred{{Name: "n", Terms: []STerm{aVar("x")}}}}
+						val := func(t STerm) SOp { return SOp{Kind: 0, Val: t} }
+						switch exprKind {
+						case 1:
+							rule.Exprs = []SExpr{{val(aVar("x")), val(aInt(0)), {Kind: 2, Bin: 3}}}
+						case 2: // 10 / x >= 0 : error when x = 0
+							rule.Exprs = []SExpr{{val(aInt(10)), val(aVar("x")), {Kind: 2, Bin: 12}, val(aInt(0)), {Kind: 2, Bin: 3}}}
+						case 3: // false on some
+							rule.Exprs = []SExpr{{val(aVar("x")), val(aInt(2)), {Kind: 2, Bin: 0}}}
+						case 4: // ill-typed on every fact
+							rule.Exprs = []SExpr{{val(aVar("x")), val(aStr("s")), {Kind: 2, Bin: 0}}}
+						}
+						w.AddRule(rule.toDatalog(syms))
+						err := w.Run(syms)
+						w.QueryRule(rule.toDatalog(syms), syms)
+						res.Count(fmt.Sprintf("census %d", k), true)
+						res.Dist("census:" + runErrClass(err))
+						time.Sleep(3 * time.Millisecond)
+						if g := datalogGoroutines() - base; g != 0 {
+							time.Sleep(150 * time.Millisecond)
+							if g = datalogGoroutines() - base; g != 0 {
+								res.Violate("stranded-goroutine:"+runErrClass(err), fmt.Sprintf("%d goroutine(s) left blocked after World.Run / QueryRule returned %v", g, err),
+									map[string]interface{}{"rule": rule.String(), "facts": fmt.Sprint(vals)})
+								base = datalogGoroutines()
+							}
+						}
+					}
+				}
 			}
 		}
 	}
